@@ -40,7 +40,10 @@ def tie_spec(seed: int) -> Dict[str, Any]:
 
     rnd = random.Random(seed * 31 + 5)
     prof = dict(PROFILE)
-    prof["network"] = rnd.choice(["euclidean", "euclidean", "euclidean", "grid"])
+    _ = rnd.choice(["euclidean", "euclidean", "euclidean", "grid"])  # (keeps the random stream of earlier versions)
+    prof["network"] = "grid" if seed % 3 == 2 else "euclidean"  # every third scenario on a street network
+    if prof["network"] == "grid":
+        prof["grid"] = {"oneway": 0.0, "n": 5 + seed % 3}  # two-way streets throughout: both directions of a street are distinct links
     prof["fleets"] = rnd.choice([0, 2, 3, 3])
     prof["prices"] = rnd.choice(["geoid", "geoid", "station", "none"])
     sttc = seed % 3 == 1  # every third scenario ranks stations by estimated time to charge
